@@ -123,6 +123,11 @@ func (e *Eng) evalSpec(st *State, x *SExpr, env map[string]*Val, old map[string]
 					return v.Elems[2]
 				}
 				panic("spec: len of " + v.Sort)
+			case "ite":
+				c := e.evalSpec(st, x.Args[1], env, old)
+				a := e.evalSpec(st, x.Args[2], env, old)
+				b := e.evalSpec(st, x.Args[3], env, old)
+				return scalar(fmt.Sprintf("(ite %s %s %s)", c.T, a.T, b.T), a.Sort, a.Go)
 			case "min", "max":
 				a := e.evalSpec(st, x.Args[1], env, old)
 				b := e.evalSpec(st, x.Args[2], env, old)
